@@ -1,12 +1,12 @@
 package chainsim
 
 import (
-	"sort"
-	"strings"
 	"bytes"
 	"encoding/binary"
 	"fmt"
 	"math/big"
+	"sort"
+	"strings"
 	"testing/synctest"
 
 	"github.com/dominant-strategies/go-quai/common"
@@ -71,6 +71,8 @@ type Hooks struct {
 	// TxBuilt sees every transaction the harness hands to a pool.
 	TxBuilt func(w *World, tx *types.Transaction, flavour string, poolErr error)
 	End     func(w *World)
+	// PreDeliver runs after a block was sealed and before the node processes it; sel is tape-derived (0..95).
+	PreDeliver func(w *World, n *Node, bi *BlockInfo, blk *types.WorkObject, sel int)
 	// ByzProps selects which rows of the mutation table the byz op uses (nil: byz ops are skipped).
 	ByzProps map[string]bool
 	// Byz receives the outcome of every byzantine block presented to the node.
@@ -79,13 +81,13 @@ type Hooks struct {
 
 // Runner interprets a tape on one node (w.Nodes[0]).
 type Runner struct {
-	W     *World
-	N     *Node
-	Head  common.Hash // harness's notion of the node's head
-	Hooks Hooks
-	Stats map[string]int
-	ended bool
-	txSeq int64
+	W           *World
+	N           *Node
+	Head        common.Hash // harness's notion of the node's head
+	Hooks       Hooks
+	Stats       map[string]int
+	ended       bool
+	txSeq       int64
 	qiFeeShapes map[string]bool
 	// Contracts are the forwarder contracts the harness tried to deploy (address known at signing time).
 	Contracts []common.Address
@@ -272,6 +274,11 @@ func (r *Runner) Step(op Op) bool {
 		want := -1
 		if op.A%4 != 3 {
 			want = op.A % 4 // 0..2
+		}
+		w.PreDeliver = nil
+		if r.Hooks.PreDeliver != nil {
+			sel := op.B/3*16 + op.D
+			w.PreDeliver = func(n *Node, bi *BlockInfo, blk *types.WorkObject) { r.Hooks.PreDeliver(w, n, bi, blk, sel) }
 		}
 		bi, err := w.Mine(n, cb, uint64(op.C)*104729+uint64(op.D)*7919+uint64(len(w.Tips))*15485863, want)
 		if err != nil {
